@@ -28,7 +28,7 @@ pub fn log_id(msg: &str) -> Option<String> {
 
 pub fn c20(an: &Analysis<'_>, t: &mut Tally, idx: u64) {
     let out = an.out;
-    let mut viol = |sig: &str, detail: String, t: &mut Tally| {
+    let viol = |sig: &str, detail: String, t: &mut Tally| {
         t.violation(
             "C20",
             sig,
